@@ -81,6 +81,9 @@ type vbroker struct {
 	silentAll  bool // broker stops answering PINGREQ (C13)
 	silentArmed bool
 	noCuts     bool // only the "drop" fault is offered
+	gateDial   bool // every re-dial parks until the system is idle
+	dialStarts int
+	downgrade  bool // SUBACK grants QoS 0 on the first connection whatever was requested
 	allowGarbage bool
 	clients    []*BaseClient
 	states     [][]ConnState
@@ -123,6 +126,17 @@ func (b *vbroker) ev(s string) {
 }
 
 func (b *vbroker) DialContext(ctx context.Context) (*BaseClient, error) {
+	verifLock()
+	b.dialStarts++ // a dial counts from the moment it is started
+	again := b.dialStarts > 1
+	verifUnlock()
+	if b.gateDial {
+		if again {
+			// a re-dial takes a while: other things (a Disconnect, say) can happen while it is in progress
+			verifEvent("dialing")
+			verifPause()
+		}
+	}
 	verifLock()
 	b.dials++
 	n := len(b.conns)
@@ -410,8 +424,12 @@ func (b *vbroker) process(c *vconn, p refPacket, tag int, fault int) (answer []b
 	case 8:
 		ans := []byte{0x90, byte(2 + len(p.filters)), byte(p.id >> 8), byte(p.id)}
 		for i, f := range p.filters {
-			b.setSub(string(f), p.qoss[i])
-			ans = append(ans, p.qoss[i])
+			b.setSub(string(f), p.qoss[i]) // what the client asked for
+			g := p.qoss[i]
+			if b.downgrade && len(b.conns) == 1 && g > 0 {
+				g = 0 // a broker may grant less than requested
+			}
+			ans = append(ans, g)
 		}
 		return ans, 9
 	case 10:
